@@ -34,7 +34,7 @@ ASSUMPTIONS = [
 NSHARDS = 64
 
 _CFG = {
-    "quick": dict(names="ab", max_params=2, defaults=(None, "0", "1"), max_pos=3),
+    "quick": dict(names="abc", max_params=2, defaults=(None, "0", "1"), max_pos=3),
     "thorough": dict(names="abc", max_params=3, defaults=(None, "0", "1"), max_pos=4),
 }
 _ALPHABETS = ["abc", "pqr", "xyw", "mno"]
